@@ -18,27 +18,6 @@ META = {
 }
 
 
-def pre_build(ctx):
-    # undo / redo are part of what this property quantifies over: re-translate action_history.py
-    import translate_history
-
-    ok, msg = translate_history.regenerate()
-    if not ok:
-        raise RuntimeError("translator refused action_history.py: %s" % msg)
-    # the composite user actions: re-translate user_actions/*.py (Gen/UserActions_gen.v)
-    import translate_user_actions
-
-    translate_user_actions.regenerate(repo=str(__import__("common").REPO))
-    if not translate_user_actions.LAST.get("ok"):
-        raise RuntimeError("translator refused user_actions/*.py: %s" % translate_user_actions.LAST.get("msg"))
-    # the code the user actions call: queries, id counter, undo / redo, basic actions (Gen/Core_gen.v)
-    import translate_core
-
-    ok, msg = translate_core.regenerate()
-    if not ok:
-        raise RuntimeError("translator refused the core sources: %s" % msg)
-
-
 def run(ctx):
     return G.run_property(ctx, "C20", n_quick=400, n_thorough=6000, seg_p=0.5)
 
